@@ -88,6 +88,15 @@ def main():
         if not impl_file.startswith(os.path.abspath(core.REPO)):
             print(f"INFRASTRUCTURE ERROR: eqsig imported from {impl_file}, expected under {core.REPO}")
             return 2
+        # PRELUDE pseudo-property (DESIGN §3.2): every NumPy/SciPy primitive the hand models rely on is differentially tested
+        # against the real library on every run (exact comparison, ~3000 requests, ~1 s); its disagreements are correspondence
+        # disagreements of this run (labels 'PRELUDE np.*')
+        try:
+            import prelude_check
+            prelude_check.run_prelude(ctx)
+            ctx.flush()
+        except ImportError:
+            ctx.notes.append('prelude_check not available')
         mod.run(ctx)
         ctx.flush()
     except Exception as e:
